@@ -18,6 +18,21 @@ func genShutdown(b *strings.Builder) {
 		problem("main not found")
 		return
 	}
+	// start-up order of main(): the top-level statements that install the signal handler, start the receivers (the loop over
+	// the listen addresses) and wait for the signal, in source order
+	var startup []string
+	for _, st := range fd.Body.List {
+		txt := nodeText(fset, st)
+		switch {
+		case strings.Contains(txt, "signal.Notify("):
+			startup = append(startup, leanStr("signal.Notify"))
+		case strings.Contains(txt, ".Start(") && strings.HasPrefix(txt, "for "):
+			startup = append(startup, leanStr("start receivers"))
+		case txt == "<-c":
+			startup = append(startup, leanStr("<-c"))
+		}
+	}
+	fmt.Fprintf(b, "def startupOrder : List String := [%s]\n\n", strings.Join(startup, ", "))
 	var order []string
 	seen := false
 	for _, s := range fd.Body.List {
